@@ -1,9 +1,12 @@
 (* Props/C03.v — Each bet settles exactly once and pays exactly what the ticket promised.
-   PARTIAL: placement facts are proved (recorded stake = stake taken = Σ parts, never empty); settlement
-   amounts, once-only and non-negativity of parts are decided per run by the Go monitors (placement and
-   EndBlock accounting on the real state) + correspondence + kernel stream. *)
+   Proved: placement (recorded stake = stake taken = Σ parts, never empty); what a settlement pays (refund of stake and
+   fee on cancel/abort; Σ(part payout + part stake) to a winner; nothing to a loser; the bet fee to the market creator);
+   over histories: a settled bet is never touched again and the terms of a bet (id, creator, amount, fee, outcome, odds,
+   backing parts) never change (C03_settled_final, C03_terms_fixed), together with C08_indexes (exactly once in the
+   settled index).  That Σ part payouts equals the integer part of stake x (odds - 1) for every split of the bet over
+   the queue, and non-negativity of parts, are decided per run by the accounting monitors + kernel stream. *)
 From Coq Require Import ZArith Bool List.
-From Sge Require Import Lib.Dec Model.Types Model.Orderbook Model.Mint Model.Chain Proofs.WagerLoop Proofs.Inversion.
+From Sge Require Import Lib.Dec Model.Types Model.Orderbook Model.Mint Model.Chain Proofs.WagerLoop Proofs.Inversion Proofs.Custody Proofs.Mono.
 Import ListNotations.
 Open Scope Z_scope.
 
@@ -27,3 +30,31 @@ Theorem C03_place : forall s sg u a sm so ov mu al s',
       [Pay sg BETFEE (b_fee b); Pay sg POOL (b_amount b)] = Some (c_bank s', c_subs s').
 Proof. exact wager_core_record. Qed.
 Print Assumptions C03_place.
+
+Theorem C03_payout : forall x h id x' effs,
+  settle_bet x h id = Some (x', effs) ->
+  exists b, find (fun c => b_id c =? id) (ms_bets x) = Some b /\ b_status b <> BS_SETTLED /\
+    let mk := ms_mkt x in
+    ((k_status mk = MK_ABORTED \/ k_status mk = MK_CANCELED) /\
+       effs = [Pay POOL (b_creator b) (b_amount b); Pay BETFEE (b_creator b) (b_fee b)]) \/
+    (k_status mk = MK_DECLARED /\ zmem (b_odds b) (k_winners mk) = true /\
+       effs = map (fun f => Pay POOL (b_creator b) (f_pay f + f_stake f)) (b_parts b) ++ [Pay BETFEE (k_creator mk) (b_fee b)]) \/
+    (k_status mk = MK_DECLARED /\ zmem (b_odds b) (k_winners mk) = false /\ effs = [Pay BETFEE (k_creator mk) (b_fee b)]).
+Proof. exact settle_bet_payout. Qed.
+Print Assumptions C03_payout.
+
+Theorem C03_settled_final : forall bk supply P vault MP t0 sw sd,
+  bget bk POOL = 0 -> bget bk HOUSEFEE = 0 -> bget bk BETFEE = 0 ->
+  forall ops1 ops2 m x b, Forall valid_op ops1 -> Forall valid_op ops2 ->
+  get_ms (run (init bk supply P vault MP t0 sw sd) ops1) m = Some x -> In b (ms_bets x) -> b_status b = BS_SETTLED ->
+  exists x', get_ms (run (init bk supply P vault MP t0 sw sd) (ops1 ++ ops2)) m = Some x' /\ In b (ms_bets x').
+Proof. exact settled_bet_is_final. Qed.
+Print Assumptions C03_settled_final.
+
+Theorem C03_terms_fixed : forall bk supply P vault MP t0 sw sd,
+  bget bk POOL = 0 -> bget bk HOUSEFEE = 0 -> bget bk BETFEE = 0 ->
+  forall ops1 ops2 m x b, Forall valid_op ops1 -> Forall valid_op ops2 ->
+  get_ms (run (init bk supply P vault MP t0 sw sd) ops1) m = Some x -> In b (ms_bets x) ->
+  exists x' b', get_ms (run (init bk supply P vault MP t0 sw sd) (ops1 ++ ops2)) m = Some x' /\ In b' (ms_bets x') /\ bet_core b' = bet_core b.
+Proof. exact bet_terms_are_fixed. Qed.
+Print Assumptions C03_terms_fixed.
